@@ -70,6 +70,8 @@ Lemma v4_mf_bits (b : byte) : (N.land (b2n b / 32) MoreFragments =? MoreFragment
 Proof. by_byte b. Qed.
 Lemma v4_ecn_bits (b : byte) : negb (N.land (b2n b mod 4) IP_TOS_CE_ECT =? 0) = negb (b2n b mod 4 =? 0).
 Proof. by_byte b. Qed.
+Lemma ns_land_bits (b : byte) : negb (N.land (b2n b mod 16) TCP_NS =? 0) = N.odd (b2n b).
+Proof. by_byte b. Qed.
 Lemma ns_bits (b : byte) : N.odd (b2n b) = N.odd (b2n b mod 16).
 Proof. by_byte b. Qed.
 
